@@ -82,6 +82,11 @@ func FieldsFromStruct(t reflect.Type) TypesTable {
 				}
 			}
 
+			if f.PkgPath != "" {
+				// Unexported fields cannot be read at run time.
+				continue
+			}
+
 			types[f.Name] = Tag{Type: f.Type}
 		}
 	}
